@@ -42,6 +42,7 @@ ASSUMPTIONS = [
     "and all two-character strings whose upper() has length 1 on every run)",
     "central differences with step 1e-6*scale resolve the Jacobian of the real callables to 1e-6 relative",
 ]
+JIT_TWIN = ('velocity', 'utils')   # groups of harness/jittwin.py: the numba-compiled code is run on the same battery and compared
 TRUSTED = [
     "capture of the real `_terminate` closure by substituting `pydrex.pathlines.si` during a get_pathline call",
     "pathline tolerances: end point 1e-12*box, containment overshoot 2e-3*box (100x rtol*box..), dx/dt residual 5e-2*max|u| (observed ceiling 0.9e-2) "
